@@ -3,7 +3,7 @@
    (Model.Node), and Zeroconf.async_send's encoding behind it.  Exceptions are explicit: an [ORaise] in the output of a datagram
    or timer label is an exception that would escape into the event loop.  One IPv4 socket (scope None). *)
 From ZC Require Import Model.Base Model.PyRec Model.Dict Model.Re Model.Cache Model.Ingest Model.Respond Model.Route
-  Model.WireDec Model.WireEnc Model.OutQueue Model.Register Model.Listener Model.Node Gen.Const Gen.Extra Gen.DnsPure.
+  Model.WireDec Model.WireEnc Model.OutQueue Model.Register Model.Listener Model.Node Gen.Const Gen.Sites Gen.Extra Gen.DnsPure.
 
 Definition FRAMES : nat := 200.      (* Python stack frames available to the decoder's pointer recursion (any value >= 130 behaves alike: C02_total) *)
 
@@ -19,8 +19,11 @@ Definition lmsg_of (data : bytes) (p : parsed) : lmsg :=
      lm_is_query := Z.land (m_flags p) C_FLAGS_QR_MASK =? C_FLAGS_QR_QUERY;
      lm_truncated := Z.land (m_flags p) C_FLAGS_TC =? C_FLAGS_TC;
      lm_has_qu := existsb DNSEntry_unique (m_questions p) |}.
-Definition qmsg_of (p : parsed) (now : Z) : qmsg :=
-  {| qm_questions := m_questions p; qm_answers := m_answers p; qm_is_probe := 0 <? m_nauth p; qm_now := now |}.
+Definition qmsg_of :=
+  Eval cbv beta match delta [sop_apply sop_mirror site_dec_is_probe site_dec_is_probe_rhs] in
+  fun (p : parsed) (now : Z) =>
+  {| qm_questions := m_questions p; qm_answers := m_answers p;
+     qm_is_probe := sop_apply (sop_mirror site_dec_is_probe) site_dec_is_probe_rhs (m_nauth p); qm_now := now |}.
 
 Definition mkey (addr : text) (data : bytes) : bytes := addr ++ [-1] ++ data.
 
@@ -55,10 +58,12 @@ Inductive flabel :=
 | FTimer (addr : text) (port : Z) (now rnd_q rnd_d : Z)          (* the reassembly timer of a truncated query fires *)
 | FNode (l : nlabel).
 
-Definition fstep (f : fnode) (l : flabel) : fnode * list nout :=
+Definition fstep :=
+  Eval cbv beta iota delta [sop_apply site_listener_oversize] in
+  fun (f : fnode) (l : flabel) =>
   match l with
   | FDatagram data addr port now tc rq rd =>
-      if Z.of_nat (length data) >? C_MAX_MSG_ABSOLUTE then (f, [])
+      if sop_apply site_listener_oversize (Z.of_nat (length data)) C_MAX_MSG_ABSOLUTE then (f, [])
       else if is_duplicate (f_ls f) data now then (f, [])
       else
         let p := parse data now None FRAMES in
